@@ -348,6 +348,8 @@ def fuzz_seeds(rng):
         out.append({"entry": "derive", "attr": "", "item": f"#[derive_ex({attr})] {item}", "origin": "gen"})
     # every derivable trait on every tiny shape, both entry points (run unmodified by the fuzz loop, and mutated)
     shapes = ["struct X;", "struct X();", "struct X {}", "struct X(u8);", "struct X { a: u8 }", "struct X(u8, u16);", "struct X<T> { a: T, b: u8, c: T }",
+              # raw identifiers for field, variant and type names (names are pasted into generated identifiers)
+              "struct X { r#type: u8, r#fn: u16 }", "enum X { A { r#match: u8, r#in: u16 }, r#Self_ }", "struct r#struct<r#T>(r#T);",
               "enum X {}", "enum X { A }", "enum X { A(u8) }", "enum X { A {}, B() }", "enum X<T> { A, B(T), C { t: T } }", "union X { a: u8 }",
               "struct X<T: ?Sized>(T);", "struct X<'a, const N: usize>(&'a [u8; N]);"]
     for t in STRUCT_TRAITS + ["Deref", "DerefMut"]:
